@@ -1148,21 +1148,27 @@ namespace occa {
         return;
       }
 
-      // Make sure to test #elif expression is valid
-      bool isTrue;
-      if (!lineIsTrue(directive, isTrue)) {
-        return;
-      }
-
+      // The condition is only evaluated if no previous group was taken
+      //   and the whole #if is not nested inside a skipped group
       // If we already finished, keep old state
       if (status & ppStatus::finishedIf) {
+        skipToNewline();
         return;
       }
 
       if (status & ppStatus::reading) {
         swapReadingStatus();
         status |= ppStatus::finishedIf;
-      } else if (isTrue) {
+        skipToNewline();
+        return;
+      }
+
+      bool isTrue;
+      if (!lineIsTrue(directive, isTrue)) {
+        return;
+      }
+
+      if (isTrue) {
         status = (ppStatus::foundIf |
                   ppStatus::reading);
       }
